@@ -17,7 +17,7 @@ from .driver import make_exc
 ASYNC_FLAVOURS = ("agen", "aclass", "aclass_noclose", "aplain", "agenlike", "aeager", "aeagerstop", "aproxy", "areiter", "alateclose", "agencoro", "aclass_awaitable")
 SYNC_FLAVOURS = ("list", "seq", "iter", "tuple", "tuplesub", "reiter", "sgen", "ringlist", "range", "iter_noasync", "iter_hint0", "iter_awaitable")
 SRC_FLAVOURS = ASYNC_FLAVOURS + SYNC_FLAVOURS
-FN_FLAVOURS = ("def", "async", "partial", "obj", "objaw", "falsyobj", "eqobj", "unhashobj", "aeqobj", "gencoro", "classaw", "defcoro", "eagercoro")
+FN_FLAVOURS = ("def", "async", "partial", "obj", "objaw", "falsyobj", "eqobj", "unhashobj", "aeqobj", "gencoro", "classaw", "defcoro", "eagercoro", "fwddef", "fwdcoro")
 
 
 class SourceBase:
@@ -696,6 +696,14 @@ def _argkey1(a):
     return len(repr(a))
 
 
+def forward_call(target):
+    """closures of ONE factory share their code object; whether a call gives a value or an awaitable depends on target"""
+    def call(*args):
+        return target(*args)
+
+    return call
+
+
 class Fn:
     """Callable double.  ``spec`` keys: kind (table|derive|ident), table (list of
     live values), fl, susp, fault{at,exc}.  ``side`` 's' is always a plain def."""
@@ -780,6 +788,16 @@ class Fn:
             self.invoked += 1
             return body(*args)
 
+        def plain_result(*args):
+            self.invoked += 1
+            return self._result(args)
+
+        if fl == "fwddef":
+            return forward_call(plain_result)
+        if fl == "fwdcoro":
+            # the SAME code object as "fwddef" (closures of one factory): what a callable returns is a matter of the
+            # call, not of the function's code
+            return forward_call(coro)
         if fl == "defcoro":
             return coro  # a plain ``def`` (or lambda) that returns a coroutine: not a coroutine FUNCTION
         if fl == "eagercoro":
